@@ -315,15 +315,27 @@ fn has_fault_after_first_pack(s: &Scenario, o: &TrOutcome) -> bool {
     detached && fault
 }
 
-fn check_one(ctx: &Ctx, scratch: &Path, s: &Scenario, kind: &str) -> (Check, usize) {
-    ctx.eval();
-    ctx.class(&format!("fault:{kind}"));
+/// What one executed variant contributes to the evidence; produced on worker threads, absorbed on the main thread.
+struct OneResult {
+    check: Check,
+    ncmd: usize,
+    classes: Vec<String>,
+    nontrivial: Option<u64>,
+    sample: Option<(u64, Value)>,
+}
+
+fn exec_one(scratch: &Path, s: &Scenario, kind: &str) -> OneResult {
+    let mut classes = vec![format!("fault:{kind}")];
     let (v, seq) = scenario_json(s);
-    let root = scratch.join(format!("s-{:016x}", hash_of(&v.to_string())));
+    let root = scratch.join(format!("s-{:016x}-{}", hash_of(&(v.to_string(), &seq)), crate::core::uniq()));
     let needs_toolchain = v.to_string().contains("\"crate_buildpack\":\"");
     let o = trrun::run_scenario_env(&root, &v, s.fail_at, &seq, needs_toolchain);
+    let done = |check: Check, classes: Vec<String>, n: usize| {
+        let _ = crate::fsutil::force_remove(&root);
+        OneResult { check, ncmd: n, classes, nontrivial: None, sample: None }
+    };
     if needs_toolchain {
-        ctx.class("crate-buildpack-scenario");
+        classes.push("crate-buildpack-scenario".into());
         // the packaged buildpack handed to pack must live below TMPDIR (and be gone afterwards, checked by the oracle)
         for e in &o.log {
             let a = argv(e);
@@ -332,40 +344,55 @@ fn check_one(ctx: &Ctx, scratch: &Path, s: &Scenario, kind: &str) -> (Check, usi
                     let bp = a.get(i + 1).cloned().unwrap_or_default();
                     // compiled buildpacks are passed as absolute paths; registry ids (heroku/nodejs) are not paths
                     if bp.starts_with('/') && !bp.starts_with(&root.join("tmp").to_string_lossy().to_string()) {
-                        let _ = crate::fsutil::force_remove(&root);
-                        return (Err(Fail::new("C16:compiled-buildpack-outside-tmpdir", format!("--buildpack {bp}"))), o.log.len());
+                        return done(Err(Fail::new("C16:compiled-buildpack-outside-tmpdir", format!("--buildpack {bp}"))), classes, o.log.len());
                     }
                 }
             }
         }
         if o.code == Some(101) && o.stderr.contains("Error packaging") {
-            let _ = crate::fsutil::force_remove(&root);
-            return (Err(Fail::new("harness:crate-buildpack-did-not-compile", o.stderr.chars().take(600).collect::<String>())), o.log.len());
+            return done(Err(Fail::new("harness:crate-buildpack-did-not-compile", o.stderr.chars().take(600).collect::<String>())), classes, o.log.len());
         }
     }
-    ctx.extra_add("external_commands_recorded", o.log.len() as u64);
-    match o.code {
-        Some(0) => ctx.class("outcome:test-passed"),
-        Some(101) => ctx.class("outcome:test-panicked"),
-        _ => ctx.class("outcome:other"),
-    }
+    classes.push(match o.code {
+        Some(0) => "outcome:test-passed".into(),
+        Some(101) => "outcome:test-panicked".into(),
+        _ => "outcome:other".into(),
+    });
     if o.log.iter().filter(|e| e["prog"] == "pack" && argv(e).first().map(String::as_str) == Some("build")).count() >= 2 {
-        ctx.class("has-rebuild");
+        classes.push("has-rebuild".into());
     }
+    let mut nontrivial = None;
+    let mut sample = None;
     if has_fault_after_first_pack(s, &o) {
-        ctx.class("nontrivial");
-        ctx.nontrivial(hash_of(&v.to_string()));
-        if (ctx.samples_len() < 2 || hash_of(&v.to_string()) % 197 == 0) {
-            ctx.sample(4, || json!({"scenario": v, "commands": o.log.iter().map(|e| format!("{} {}{}", e["prog"].as_str().unwrap_or(""), argv(e).join(" "), if e["failed"] == true { "   <- FAILED" } else { "" })).collect::<Vec<_>>(), "exit": o.code}));
-        }
+        classes.push("nontrivial".into());
+        let h = hash_of(&v.to_string());
+        nontrivial = Some(h);
+        sample = Some((h, json!({"scenario": v, "commands": o.log.iter().map(|e| format!("{} {}{}", e["prog"].as_str().unwrap_or(""), argv(e).join(" "), if e["failed"] == true { "   <- FAILED" } else { "" })).collect::<Vec<_>>(), "exit": o.code})));
     }
     let r = judge(&o, s.fail_at);
     let n = o.log.len();
     let _ = crate::fsutil::force_remove(&root);
-    (r, n)
+    OneResult { check: r, ncmd: n, classes, nontrivial, sample }
 }
 
-/// one fault-free tree and EVERY single fault on it
+fn absorb_one(ctx: &Ctx, r: OneResult) -> (Check, usize) {
+    ctx.eval();
+    for c in &r.classes {
+        ctx.class(c);
+    }
+    ctx.extra_add("external_commands_recorded", r.ncmd as u64);
+    if let Some(h) = r.nontrivial {
+        ctx.nontrivial(h);
+    }
+    if let Some((h, v)) = r.sample {
+        if ctx.samples_len() < 2 || h % 197 == 0 {
+            ctx.sample(4, || v);
+        }
+    }
+    (r.check, r.ncmd)
+}
+
+/// one fault-free tree and EVERY single fault on it (the variants run in parallel, results are absorbed in a fixed order)
 fn check(ctx: &Ctx, scratch: &Path, b: &Build, stash: &std::cell::RefCell<Option<Value>>) -> Check {
     let base = Scenario { build: b.clone(), fail_at: None };
     let keep = |s: &Scenario, r: Check| -> Check {
@@ -374,28 +401,33 @@ fn check(ctx: &Ctx, scratch: &Path, b: &Build, stash: &std::cell::RefCell<Option
         }
         r
     };
-    let (r, ncmd) = check_one(ctx, scratch, &base, "none");
+    let (r, ncmd) = absorb_one(ctx, exec_one(scratch, &base, "none"));
     keep(&base, r)?;
+    let mut variants: Vec<(Scenario, &'static str, String)> = vec![];
     for k in 1..=ncmd as u64 {
-        let sc = Scenario { build: b.clone(), fail_at: Some(k) };
-        let (r, _) = check_one(ctx, scratch, &sc, "command-fails");
-        keep(&sc, r).map_err(|f| Fail::new(f.sig, format!("with external command #{k} failing: {}", f.msg)))?;
+        variants.push((Scenario { build: b.clone(), fail_at: Some(k) }, "command-fails", format!("with external command #{k} failing")));
     }
     for p in 0..panic_positions(b) {
         let mut pos = p as isize;
-        let pb = with_panic_at(b, &mut pos);
-        let sc = Scenario { build: pb, fail_at: None };
-        let (r, _) = check_one(ctx, scratch, &sc, "panic");
-        keep(&sc, r).map_err(|f| Fail::new(f.sig, format!("with a panic at position {p}: {}", f.msg)))?;
+        variants.push((Scenario { build: with_panic_at(b, &mut pos), fail_at: None }, "panic", format!("with a panic at position {p}")));
     }
     for m in 0..builds_in(b) {
         let mut idx = m as isize;
-        let mb = with_mismatch_at(b, &mut idx);
-        let sc = Scenario { build: mb, fail_at: None };
-        let (r, _) = check_one(ctx, scratch, &sc, "unexpected-pack-result");
-        keep(&sc, r).map_err(|f| Fail::new(f.sig, format!("with an unexpected pack result at build {m}: {}", f.msg)))?;
+        variants.push((Scenario { build: with_mismatch_at(b, &mut idx), fail_at: None }, "unexpected-pack-result", format!("with an unexpected pack result at build {m}")));
     }
-    Ok(())
+    // crate-buildpack variants each run a cargo build: fewer at a time
+    let threads = if b.crate_buildpack.is_some() { (crate::core::ncpu() / 4).max(2) } else { crate::core::ncpu() };
+    let results = crate::core::par_map(&variants, threads, |(sc, kind, _)| exec_one(scratch, sc, kind));
+    let mut first: Check = Ok(());
+    for ((sc, _, what), r) in variants.iter().zip(results) {
+        let (r, _) = absorb_one(ctx, r);
+        if first.is_ok() {
+            if let Err(f) = keep(sc, r) {
+                first = Err(Fail::new(f.sig, format!("{what}: {}", f.msg)));
+            }
+        }
+    }
+    first
 }
 
 /// trees whose first build compiles the crate in CARGO_MANIFEST_DIR (no containers: the host triple has no container platform)
@@ -423,7 +455,7 @@ pub fn run(ctx: &Ctx) {
     ctx.run_prop(
         "scenarios",
         scenario_strategy(),
-        ctx.tier.pick(100, 4000),
+        ctx.tier.pick(400, 8000),
         |b| stash.borrow().clone().unwrap_or_else(|| case_json(&Scenario { build: b.clone(), fail_at: None })),
         |b| {
             ctx.class("fault-free-tree");
@@ -435,7 +467,7 @@ pub fn run(ctx: &Ctx) {
     ctx.run_prop(
         "crate-buildpack",
         crate_scenario_strategy(),
-        ctx.tier.pick(3, 120),
+        ctx.tier.pick(8, 160),
         |b| stash2.borrow().clone().unwrap_or_else(|| case_json(&Scenario { build: b.clone(), fail_at: None })),
         |b| {
             ctx.class("fault-free-tree:crate-buildpack");
